@@ -432,7 +432,39 @@ def r9(ctx):
                f.get('t'), f.get('w'), g.get('t'), g.get('w'), ok))
 
 
+def r10(ctx):
+    ctx.rule('C17.R10', 'a priority is given together with a place in the virtual time: every store of a value that may be non-zero '
+             'into Message::m_pollPriority stands in a function that also anchors m_pollOrder of the same message (that is '
+             'Message::setPollPriority, whose anchoring C17.R3 decides; a store of the constant 0 takes the message out of '
+             'polling and needs no place) - a priority assigned directly leaves the order at 0, far behind the virtual time '
+             'of a long-running queue, and the message is selected history / priority times in a row', minimum=1)
+    fb = ctx.fb
+    n = 0
+    for fn in fb.functions:
+        if not fn.blocks or not fn.relfile.startswith('src/'):
+            continue
+        asg = list(fn.assignments())
+        for nid, d, rhs, op, lhs in asg:
+            if lhs is None:
+                continue
+            lk = fn.key(lhs)
+            if not (lk == 'this.m_pollPriority' or lk.endswith('.m_pollPriority') or lk.endswith('->m_pollPriority')):
+                continue
+            if rhs is not None and op == '=' and fn.val(rhs) == 0:
+                continue
+            n += 1
+            ctx.touch(fn)
+            obj = lk[:-len('m_pollPriority')]
+            anch = [n2 for n2, d2, r2, o2, l2 in asg if l2 is not None and fn.key(l2) == obj + 'm_pollOrder']
+            ok = bool(anch)
+            ctx.ob('C17.R10', fn, nid, ok, 'store into %s in %s' % (lk, fn.name.split('::')[-1]),
+                   'the function also anchors %sm_pollOrder: %s' % (obj, ok))
+    if n < 1:
+        raise AnalysisBroken('C17.R10: no store into m_pollPriority found')
+
+
 def run(ctx):
+    r10(ctx)
     r9(ctx)
     r8(ctx)
     r7(ctx)
